@@ -409,6 +409,8 @@ def gtok (d : GDrv) (t : String) : GDrv :=
       match parseInput inp, (tag.drop 1).toNat? with
       | some e, some h =>
         if tag.startsWith "s" then (if alive d.handles h then d.events [.send e] else d)
+        -- `b<n>=<input>`: n entries in a row through handle 0 (send, merge, both guard kinds in turn)
+        else if tag.startsWith "b" then (if alive d.handles 0 then d.events (List.replicate h (.send e)) else d)
         else { d with bad := true }
       | _, _ => { d with bad := true }
     | _ => { d with bad := true }
